@@ -111,6 +111,26 @@ deriving DecidableEq, Repr
 
 def HeaderWriteFact.site (f : HeaderWriteFact) : String := "headerwrite:" ++ f.fn ++ ":" ++ f.header ++ ":" ++ f.field
 
+/-- what one worker body (callback of Run / EvaluateSequentially, goroutine body) reaches in lib/query, lib/value and
+    lib/option: `reachesCore` — it reaches `Evaluate` and with it every function of `Gen.reachableCore`; `direct` — the
+    functions it reaches otherwise -/
+structure ClosureReach where
+  region      : Nat
+  body        : String
+  reachesCore : Bool
+  direct      : List String
+deriving DecidableEq, Repr
+
+/-- a package-level variable of the analysed packages: is it changed after initialisation, and what makes that safe
+    (a concurrency-safe type, a lock, a sync.Once; "" = nothing found) -/
+structure PackageState where
+  pkg     : String
+  name    : String
+  typ     : String
+  written : Bool
+  guard   : String
+deriving DecidableEq, Repr
+
 /-! ## Executions -/
 
 abbrev LockId := Nat
